@@ -19,6 +19,7 @@ type TV struct {
 }
 
 type SpecEnv struct {
+	lets        map[string]ast.Expr
 	assumeLocks bool // evaluating the precondition of the function under verification: holds(x) defines the entry lockset
 	ex   *Exec
 	st   *State
@@ -185,6 +186,9 @@ func (ex *Exec) funcEnv(st *State, fr *Frame) *SpecEnv {
 // loopEnv: current values of named locals shadow the entry parameters.
 func (ex *Exec) loopEnv(st *State, fr *Frame) *SpecEnv {
 	env := ex.funcEnv(st, fr)
+	if sp := ex.Specs.Funcs[specName(fr.Fn)]; sp != nil {
+		env.lets = sp.Lets
+	}
 	env.old = nil
 	if fr.EntryFull != nil {
 		env.old = fr.EntryFull
@@ -400,6 +404,9 @@ func (env *SpecEnv) eval(e ast.Expr) TV {
 		if strings.HasPrefix(x.Name, "ghost_") {
 			return env.ghostGlobal(strings.TrimPrefix(x.Name, "ghost_"))
 		}
+		if le, ok := env.lets[x.Name]; ok {
+			return env.eval(le)
+		}
 		if env.pkg != nil {
 			if o := env.pkg.Scope().Lookup(x.Name); o != nil {
 				return env.objValue(o)
@@ -456,6 +463,9 @@ func (env *SpecEnv) eval(e ast.Expr) TV {
 				cs = append(cs, Select(c, idx))
 			}
 			v, _ := unflatten(et, cs)
+			if !mentionsBound(idx) {
+				ex.assumeInv(env.st, et, v)
+			}
 			return TV{v, et}
 		case Scalar:
 			if isStringT(base.T) {
@@ -463,6 +473,36 @@ func (env *SpecEnv) eval(e ast.Expr) TV {
 			}
 		}
 		tool("spec: index of %T", base.V)
+	case *ast.SliceExpr:
+		base := env.eval(x.X)
+		var lo, hi *Term
+		if x.Low != nil {
+			lo = env.eval(x.Low).V.(Scalar).T
+		} else {
+			lo = Zero
+		}
+		switch b := base.V.(type) {
+		case SliceV:
+			if x.High != nil {
+				hi = env.eval(x.High).V.(Scalar).T
+			} else {
+				hi = b.Len
+			}
+			return TV{SliceV{b.Arr, Add(b.Off, lo), Sub(hi, lo), Sub(b.Cap, lo)}, base.T}
+		case Scalar:
+			if b.T.Sort == SStr {
+				if x.High != nil {
+					hi = env.eval(x.High).V.(Scalar).T
+				} else {
+					hi = SLen(b.T)
+				}
+				if lo.IsInt() && lo.Int.Sign() == 0 && hi == SLen(b.T) {
+					return base
+				}
+				return TV{Scalar{UF("substr", SStr, b.T, lo, hi)}, base.T}
+			}
+		}
+		tool("spec: slice expression on %T", base.V)
 	case *ast.CallExpr:
 		return env.evalCall(x)
 	}
@@ -582,13 +622,20 @@ func (env *SpecEnv) ghostField(base TV, name string) TV {
 	}
 	srt := SInt
 	var gt types.Type = types.Typ[types.Int]
-	if gs == "bool" {
+	switch gs {
+	case "bool":
 		srt = SBool
 		gt = types.Typ[types.Bool]
+	case "bytes":
+		// an unbounded ghost byte sequence
+		h := env.st.heapGet(tn+".$"+name, SArr(SInt, SArr(SInt, SInt)))
+		return TV{ArrayV{Comps: []*Term{Select(h, key)}, N: 1 << 40}, ghostBytesType}
 	}
 	h := env.st.heapGet(tn+".$"+name, SArr(SInt, srt))
 	return TV{Scalar{Select(h, key)}, gt}
 }
+
+var ghostBytesType = types.NewArray(types.Typ[types.Uint8], 1<<40)
 
 func (env *SpecEnv) ghostType(name string) types.Type {
 	kind := env.ex.Specs.GhostVars[name]
@@ -658,6 +705,19 @@ func (env *SpecEnv) lvaluePtr(e ast.Expr) TV {
 		}
 	}
 	return env.eval(e)
+}
+
+// mentionsBound: does the term contain a quantifier-bound variable of the specification language?
+func mentionsBound(t *Term) bool {
+	if t.Op == "var" && strings.HasPrefix(t.Name, "q_") {
+		return true
+	}
+	for _, a := range t.Args {
+		if mentionsBound(a) {
+			return true
+		}
+	}
+	return false
 }
 
 func isNilTV(tv TV) bool { return tv.V == nil && tv.T == nil }
@@ -770,7 +830,10 @@ func (env *SpecEnv) evalCall(c *ast.CallExpr) TV {
 					n.vars[strings.TrimPrefix(k, "old_")] = v
 				}
 			}
-			return n.eval(c.Args[0])
+			res := n.eval(c.Args[0])
+			// facts learned while reading the old state (value ranges) hold in the current path too
+			env.st.PC = n.st.PC
+			return res
 		case "implies":
 			return TV{Scalar{Implies(env.evalBoolT(c.Args[0]), env.evalBoolT(c.Args[1]))}, boolT}
 		case "len":
@@ -838,6 +901,25 @@ func (env *SpecEnv) evalCall(c *ast.CallExpr) TV {
 				return TV{Scalar{sv}, types.Typ[types.String]}
 			}
 			return TV{Scalar{UF("substr", SStr, sv, lo, hi)}, types.Typ[types.String]}
+		case "bstr":
+			// bstr(b, start, n): the string made of bytes b[start : start+n]
+			b := env.eval(c.Args[0]).V.(SliceV)
+			start := env.eval(c.Args[1]).V.(Scalar).T
+			n := env.eval(c.Args[2]).V.(Scalar).T
+			mem := Select(env.st.heapGet("[]uint8", heapSort(2, SInt)), b.Arr)
+			r := UF("str:ofbytes", SStr, mem, Add(b.Off, start), n)
+			k := Fresh("k", SInt)
+			env.st.assume(Implies(Le(Zero, n), Eq(UF("slen", SInt, r), n)))
+			env.st.assume(Forall([]*Term{k}, Implies(And(Le(Zero, k), Lt(k, n)), Eq(UF("sat", SInt, r, k), Select(mem, Add(Add(b.Off, start), k))))))
+			return TV{Scalar{r}, types.Typ[types.String]}
+		case "be32s":
+			// big-endian signed 32-bit value of four bytes
+			var b [4]*Term
+			for i := 0; i < 4; i++ {
+				b[i] = env.eval(c.Args[i]).V.(Scalar).T
+			}
+			u := Add(Add(Add(Mul(b[0], IntLit(16777216)), Mul(b[1], IntLit(65536))), Mul(b[2], IntLit(256))), b[3])
+			return TV{Scalar{Ite(Lt(b[0], IntLit(128)), u, Sub(u, IntLit(4294967296)))}, nil}
 		case "pow2":
 			k := env.eval(c.Args[0]).V.(Scalar).T
 			if k.IsInt() && k.Int.IsInt64() && k.Int.Int64() >= 0 && k.Int.Int64() < 128 {
